@@ -17,6 +17,7 @@ CONSTANTS
   LiveRounds = FALSE
   CachePutFails = TRUE
   CrashInCreate = TRUE
+  IssuerEntries = {}
   Stops = FALSE
 INVARIANTS LockAppendOnly AckPublished AckInLock SameAck LeafCount PubBacked Recoverable
 PROPERTIES LockStepExtends OutcomeIsFinal
